@@ -439,7 +439,14 @@ func (s *controlledSelector) HandleSuccessResponse(
 	pair.state = CandidatePairStateSucceeded
 	s.log.Tracef("Found valid candidate pair: %s", pair)
 	if pair.nominateOnBindingSuccess {
-		if selectedPair := s.agent.getSelectedPair(); selectedPair == nil ||
+		// A deferred renomination is decided by its nomination value, like an immediate one: it wins if it is
+		// still the latest nomination accepted, and it is void if a later one has been accepted in the meantime.
+		// Priorities only decide between plain nominations.
+		if selectedPair := s.agent.getSelectedPair(); pair.deferredNominationValue != nil {
+			if s.lastNomination != nil && *pair.deferredNominationValue == *s.lastNomination && selectedPair != pair {
+				s.agent.setSelectedPair(pair)
+			}
+		} else if selectedPair == nil ||
 			(selectedPair != pair &&
 				(!s.agent.needsToCheckPriorityOnNominated() || selectedPair.priority() <= pair.priority())) {
 			s.agent.setSelectedPair(pair)
@@ -506,6 +513,7 @@ func (s *controlledSelector) HandleBindingRequest(message *stun.Message, local, 
 			// candidate pair state to Failed, and set the checklist state to
 			// Failed.
 			pair.nominateOnBindingSuccess = true
+			pair.deferredNominationValue = nominationValue
 		}
 	}
 
